@@ -822,6 +822,49 @@ func runHist(h []int, extra json.RawMessage) (out xplore.Out) {
 		if bh := nd.Chain.BestBlockHash(); *bh != b.Hash() {
 			viol("accepted-block-not-best", fmt.Sprintf("block %d", b.Height))
 		}
+		if last && b.Height%p.E == 1 {
+			// a competing first block of the epoch that arrives LATE: after the accepted block has been connected and the
+			// node's epoch loop has run (it fills the checkpoint look-up caches). The same rules must hold for it: the
+			// oracle's coinbase is accepted, every mutated one rejected.
+			c := nd.Chain.VerifCasper()
+			for deadline := time.Now().Add(60 * time.Second); c.VerifPendingEpochs() > 0 && time.Now().Before(deadline); {
+				time.Sleep(50 * time.Microsecond)
+			}
+			var sib *labnet.B
+			sibLoses := false
+			for tag := 9; tag < 250 && !sibLoses; tag++ {
+				sib = w.net.NewBlock(parent, labnet.BlockOpt{Txs: ttx, CoinbaseOutputs: toTxOuts(want), Tag: byte(tag), SkipCP: true})
+				hs, hb := sib.Hash(), b.Hash()
+				sibLoses = hs.String() < hb.String() // loses the hash tie-break: the node stays on the block accepted above
+			}
+			w.addAmounts(local, sib.Block.Transactions[0])
+			_, err := nd.Chain.ProcessBlock(plain(sib.Block))
+			out.Checks++
+			if err != nil {
+				viol("oracle-coinbase-rejected:late-sibling-of-epoch-start", fmt.Sprintf("a second block %d with the oracle's coinbase %s, delivered after the first one was connected, is rejected: %v", sib.Height, fmtCb(want), err))
+			}
+			seenMu := map[string]bool{}
+			for _, mu := range w.mutants(m, prog) {
+				if seenMu[fmtCb(mu.outs)] {
+					continue
+				}
+				seenMu[fmtCb(mu.outs)] = true
+				mb := w.net.NewBlock(parent, labnet.BlockOpt{Txs: ttx, CoinbaseOutputs: toTxOuts(mu.outs), Tag: 8, SkipCP: true})
+				_, err := nd.Chain.ProcessBlock(plain(mb.Block))
+				out.Checks++
+				if err == nil {
+					viol("mutated-coinbase-accepted:late-sibling:"+mu.name, fmt.Sprintf("block %d delivered after its sibling was connected: the oracle expects coinbase %s; the node accepted %s", mb.Height, fmtCb(want), fmtCb(mu.outs)))
+					out.Prune = true
+					out.Digest = "late-mutant-accepted/" + fmt.Sprint(h)
+					out.Outcome = "mutant-accepted"
+					return
+				}
+			}
+			if bh := nd.Chain.BestBlockHash(); sibLoses && *bh != b.Hash() {
+				hs, hb := sib.Hash(), b.Hash()
+				viol("late-sibling-changed-best", fmt.Sprintf("block %d: best is now %s (first block %s, late sibling %s)", b.Height, bh.String(), hb.String(), hs.String()))
+			}
+		}
 		m.apply(prog, txs)
 		if v == 2 {
 			m.VoteOuts = m.VoteOuts[1:]
